@@ -269,6 +269,21 @@ def _members(t: str):
     return [(m[1:], m[0] == "+") for m in out]
 
 
+SUBCLASS: set = {("bool", "int")}  # (sub, base) short class names; set per run by report.Ctx from the parsed class hierarchy
+
+
+def _isinstance_implications(universe):
+    """[(atom_sub, atom_base)]: atom_sub true forces atom_base true (same object, class of atom_sub derives from the other)."""
+    import re as _re
+
+    parsed = {}
+    for a in universe:
+        m = _re.match(r"^isinstance\((.+), ([A-Za-z_][\w.]*)\)$", a)
+        if m:
+            parsed[a] = (m.group(1), m.group(2).split(".")[-1])
+    return [(a, b) for a, (oa, ca) in parsed.items() for b, (ob, cb) in parsed.items() if a != b and oa == ob and (ca, cb) in SUBCLASS]
+
+
 def _truth_tables(universe, rows):
     """Larger universes: per outcome, the set of assignments that lead to it, as one bit vector over all 2^n assignments
     (bit-parallel evaluation); printed as a digest, since 2^n rows are of no use to a reader."""
@@ -286,9 +301,12 @@ def _truth_tables(universe, rows):
         for k in range(size // period):
             m |= block << (k * period)
         masks[a] = m
+    feasible = full
+    for a, b in _isinstance_implications(universe):
+        feasible &= full & ~(masks[a] & ~masks[b])
     per = {}
     for conds, out in rows:
-        sat = full
+        sat = feasible
         for t, pol in conds:
             if t.startswith("ALL["):
                 allv = full
@@ -322,8 +340,11 @@ def _case_table(rows):
     if len(universe) > 18:
         return sorted("[" + " and ".join(("" if pol else "not ") + t for t, pol in conds) + "] " + out for conds, out in rows)
     table = set()
+    implied = _isinstance_implications(universe)
     for values in itertools.product((True, False), repeat=len(universe)):
         asg = dict(zip(universe, values))
+        if any(asg[a] and not asg[b] for a, b in implied):
+            continue  # no object is an instance of the subclass and not of its base
         for conds, out in rows:
             ok = True
             ints = []
@@ -442,6 +463,55 @@ def reference_paths(source: str, params=None, like=None, repo=None):
     return summary.summarise(fn, params, module_literals(repo, like, fn) if like is not None and repo is not None else None, seq_names=seq)
 
 
+def vanished_helpers(finfo, keep, reference: str = "") -> set:
+    """Helpers the reviewed model calls and keeps as calls that the implementation's class no longer has (inlined into
+    their caller)."""
+    if finfo.cls is None:
+        return set()
+    called = {c.func.attr for c in ast.walk(ast.parse(reference.strip("\n"))) if isinstance(c, ast.Call) and isinstance(c.func, ast.Attribute)} if reference else set(keep)
+    return {k for k in keep if k in called and finfo.cls.find_method(k) is None}
+
+
+def reference_paths_inlined(ctx, finfo, reference: str, params, keep, vanished):
+    """Paths of the reference model with the models of the vanished helpers inlined: the model texts are spliced into the
+    implementation's class in an in-memory variant of the tree and summarised exactly like the implementation."""
+    import os as _os
+    import textwrap
+
+    from .. import model as _model, refmodels
+
+    cls = finfo.cls
+    mod = finfo.module
+    lines = mod.source.split("\n")
+    node = finfo.node
+    start = min([node.lineno] + [d.lineno for d in node.decorator_list]) - 1
+    indent = " " * node.col_offset
+
+    def block(text, decorate=False):
+        fn = ast.parse(text.strip("\n")).body[0]
+        first = fn.args.args[0].arg if fn.args.args else None
+        deco = "" if not decorate or first == "self" else ("@classmethod\n" if first == "cls" else "@staticmethod\n")
+        return textwrap.indent(deco + text.strip("\n") + "\n", indent).split("\n")
+
+    new_lines = lines[:start] + [indent + d for d in []]
+    decos = lines[start:node.lineno - 1]
+    body = decos + block(reference)
+    for k in sorted(vanished):
+        path = _os.path.join(refmodels.DIR, f"{cls.name}.{k}.py")
+        if not _os.path.exists(path):
+            raise KeyError(k)
+        with open(path, encoding="utf-8") as handle:
+            body += [""] + block(handle.read(), decorate=True)
+    new_lines = lines[:start] + body + lines[node.end_lineno:]
+    rel = _os.path.relpath(mod.path, ctx.repo.root)
+    overrides = dict(getattr(ctx.repo, "_overrides", {}) or {})
+    overrides[rel] = "\n".join(new_lines)
+    ref_repo = _model.Repo(ctx.repo.root, overrides=overrides, share=ctx.repo)
+    ref_f = ref_repo.method(cls.name, finfo.name, inherited=False)
+    fn, _ = normal.normalise(ref_repo, ref_f, keep=set(keep) - set(vanished), comps=False, ifexp=False)
+    return summary.summarise(fn, params, module_literals(ref_repo, ref_f, fn))
+
+
 def agree(ctx, rule, finfo, reference: str, what: dict, params=None, keep=(), key_prefix="", only_cases=None, ignore=()):
     """One obligation per component: the summary of the implementation equals the summary of the reference model.
 
@@ -453,6 +523,13 @@ def agree(ctx, rule, finfo, reference: str, what: dict, params=None, keep=(), ke
     try:
         found = signature(paths_of(ctx, finfo, params, keep))
         want = signature(reference_paths(reference, params, like=finfo, repo=ctx.repo))
+        gone = vanished_helpers(finfo, keep, reference)
+        if gone and any(found[c] != want[c] for c in what):
+            # a helper the model keeps as a call has been inlined into this function: inline its reviewed model as well
+            try:
+                want = signature(reference_paths_inlined(ctx, finfo, reference, params, keep, gone))
+            except KeyError:
+                pass
     finally:
         IGNORE[:] = []
     ctx.touch(finfo)
